@@ -136,7 +136,37 @@ func genC11Inv(c *Cfg) func(t *rapid.T) c11InvCase {
 		pc := g(t)
 		out := c11InvCase{P: pc.P, Lex: pc.Lex}
 		out.Gen = rapid.SampledFrom(cliTargets).Draw(t, "gen")
-		switch rapid.IntRange(0, 9).Draw(t, "class") {
+		switch rapid.IntRange(0, 10).Draw(t, "class") {
+		case 10:
+			// a generated typedef cycle: 1..4 typedefs, each reaching the next one directly or
+			// through some position of a container type, optionally used by a declaration
+			n := rapid.IntRange(1, 4).Draw(t, "cyclen")
+			wrappers := []string{"%s", "%s", "list<%s>", "set<%s>", "map<string,%s>", "map<%s,string>", "map<i32,list<%s>>", "list<map<%s,i64>>", "map<%s,%s>"}
+			var sb strings.Builder
+			sb.WriteString("\n")
+			names := make([]string, n)
+			for i := range names {
+				names[i] = fmt.Sprintf("ZzCyc%d", i)
+			}
+			order := rapid.Permutation(names).Draw(t, "cycorder")
+			for _, nm := range order {
+				i := int(nm[len(nm)-1] - '0')
+				w := rapid.SampledFrom(wrappers).Draw(t, "cycwrap")
+				out.Kind = "typedef-cycle"
+				next := names[(i+1)%n]
+				ty := strings.ReplaceAll(w, "%s", next)
+				sb.WriteString(fmt.Sprintf("typedef %s %s\n", ty, nm))
+			}
+			switch rapid.IntRange(0, 3).Draw(t, "cycuse") {
+			case 0:
+				sb.WriteString("struct ZzCycUse { 1: ZzCyc0 f }\n")
+			case 1:
+				sb.WriteString("service ZzCycSvc { ZzCyc0 f(1: list<ZzCyc0> a) }\n")
+			case 2:
+				sb.WriteString("scope ZzCycScope { Op: ZzCyc0 }\n")
+			}
+			out.Append = sb.String()
+			out.MustFail = true
 		case 0, 1, 2, 3:
 			out.Kind = rapid.SampledFrom(kinds).Draw(t, "semantic")
 			out.Append = semanticViolations[out.Kind]
